@@ -80,6 +80,7 @@ func (c11) Gen(r *rand.Rand, tier string, run int) *core.Case {
 		c.Params["stall"] = 0
 		c.Params["flood_loss"] = 1 + j/5%3
 		c.Params["flood_delay"] = j / 15 % 40
+		c.Params["cancel_in_callback"] = j / 600 // the last 40 runs of the block
 		c.Params["tape_seed"] = int(br.Uint64()>>34) + j
 		c.Params["fault_op"] = -5
 		c.Batch = "scenario-c-flooded-subscriber"
@@ -250,7 +251,7 @@ func (c11) Run(c *core.Case, env *core.Env) {
 // c11flood: a subscriber that does not read, n events, a call, then the loss.
 func c11flood(c *core.Case, env *core.Env, st *c11state, w *World, cl bus.Client, p probe.ProbeProxy, n int) {
 	h := env.Invoke(1, "subscribe", "tick")
-	_, ch, err := p.SubscribeTick()
+	cancel, ch, err := p.SubscribeTick()
 	env.Return(h, "", err)
 	if err != nil {
 		return
@@ -258,6 +259,14 @@ func c11flood(c *core.Case, env *core.Env, st *c11state, w *World, cl bus.Client
 	st.mu.Lock()
 	st.subs++
 	st.mu.Unlock()
+	if c.P("cancel_in_callback", 0) == 1 {
+		// the application gives its subscription up when it learns that the
+		// connection is gone (the channel must be closed all the same)
+		cl.OnDisconnect(func(error) {
+			zzsim.Event("subscription cancelled from the disconnect callback")
+			cancel()
+		})
+	}
 	zzsim.SetNode("server")
 	for k := int32(1); k <= int32(n); k++ {
 		w.Impls[0].Helper.SignalTick(k)
